@@ -2,7 +2,7 @@
 \* the reward cost (20000) and large; reward cost 0 or fee(claim)+fee(proof)
 CONSTANTS
   Rewards <- MCRewards  TxFees <- MCTxFees  AllocPairs <- MCAllocPairs  ShareMaps <- MCShareMaps
-  MaxReward = 40  ExtraRewards = {99, 100, 101, 199, 200, 19999, 20000, 20001, 20099, 20100, 20101, 22345, 39999, 40000, 123456, 999999, 1000000, 19999999}
+  MaxReward = 40  ExtraRewards = {0, 99, 100, 101, 199, 200, 19999, 20000, 20001, 20099, 20100, 20101, 22345, 39999, 40000, 123456, 999999, 1000000, 19999999}
   FeeSet = {1, 3, 10000, 10001, 29999, 30000}
   Costs = {0, 20000}  PayerInit = 100000  Linear = FALSE  MaxOps = 12  RecordHist = TRUE
   AllocGrid = {0, 1, 10, 33, 67, 100}  AllocFixed = {}
